@@ -18,6 +18,43 @@ var arches = []string{"amd64", "arm64"}
 // Generate builds the case of a stream from its own seed (so a case can be
 // regenerated from "stream:genseed" alone).
 func Generate(genseed uint64, stream string, thorough bool) *Case {
+	if stream == "schedenum" {
+		// schedule enumeration: a small graph with real fan-out (a node with >= 2 distinct successors, or a
+		// shared successor), memory stores, few scheduling points
+		r := common.NewRand(genseed)
+		var cands []int
+		for i, sg := range SmallGraphs() {
+			for _, n := range sg.Nodes {
+				seen := map[int]bool{}
+				for _, x := range n.Succ {
+					seen[x] = true
+				}
+				if len(seen) >= 2 && len(sg.Preds(n.ID)) == 0 && len(sg.Nodes) <= 4 {
+					cands = append(cands, i)
+					break
+				}
+			}
+		}
+		sg := SmallGraphs()[common.Pick(r, cands)]
+		root := 0
+		for _, n := range sg.Nodes {
+			seen := map[int]bool{}
+			for _, x := range n.Succ {
+				seen[x] = true
+			}
+			if len(seen) >= 2 && len(sg.Preds(n.ID)) == 0 {
+				root = n.ID
+			}
+		}
+		c := &Case{Stream: stream, Graph: sg.Encode(), Root: root, MapRoot: -1, FailNode: -1, PreTag: -1,
+			K: common.Pick(r, []int{2, 2, 3}), Mode: common.Pick(r, []string{"g", "t", "r"}), Src: "mem", Dst: "mem",
+			SrcRef: "v1", Seed: r.U64(), GenSeed: genseed, Thorough: thorough, Sched: true, Enum: true,
+			CbSet: common.Pick(r, []string{"00000", "00000", "01100"})}
+		if r.Chance(1, 3) {
+			c.D0 = []int{0}
+		}
+		return c
+	}
 	if stream == "small" {
 		c := smallCase(genseed)
 		c.GenSeed, c.Thorough = genseed, thorough
@@ -37,6 +74,8 @@ func Generate(genseed uint64, stream string, thorough bool) *Case {
 		o.MinNodes = 4
 	case "twinreach":
 		o.MinNodes = 4
+	case "schedenum":
+		o.MinNodes, o.MaxNodes, o.Foreign = 2, 4, false
 	}
 	var g *dag.Graph
 	for {
@@ -56,6 +95,10 @@ func Generate(genseed uint64, stream string, thorough bool) *Case {
 	}
 	// (twins and Mount are not combined: the wrappers' Mount path takes no per-digest lock)
 	remoteMount := stream == "remote" && genseed%3 == 0
+	zooRoot := -1
+	if (stream == "main" || stream == "rootpresent" || stream == "cancel") && r.Chance(1, 5) {
+		zooRoot = addLayerZoo(r, g) // every layer media type, distributable ones after >= 2 foreign ones
+	}
 	wideRoot := -1
 	if stream == "contention" && genseed%3 != 0 {
 		wideRoot = addWideFan(r, g) // an index over 8..14 fresh image manifests: more runnable tasks than any K
@@ -71,7 +114,7 @@ func Generate(genseed uint64, stream string, thorough bool) *Case {
 			}
 		}
 	}
-	if stream != "twin" && stream != "twinreach" && stream != "mount" && stream != "sched" && !remoteMount && r.Chance(1, 4) {
+	if stream != "twin" && stream != "twinreach" && stream != "mount" && stream != "sched" && stream != "schedenum" && !remoteMount && r.Chance(1, 4) {
 		addBlobTwin(r, g)
 	}
 	c := &Case{Stream: stream, Graph: g.Encode(), MapRoot: -1, FailNode: -1, PreTag: -1, GenSeed: genseed, Seed: r.U64(), Thorough: thorough}
@@ -96,6 +139,8 @@ func Generate(genseed uint64, stream string, thorough bool) *Case {
 		return best
 	}
 	switch {
+	case zooRoot >= 0 && r.Chance(2, 3):
+		c.Root = zooRoot
 	case stream == "contention" && wideRoot >= 0:
 		c.Root = wideRoot
 	case stream == "contention":
@@ -189,6 +234,21 @@ func Generate(genseed uint64, stream string, thorough bool) *Case {
 		c.MapRoot, c.Platform, c.Mount, c.RefFetch, c.Fast, c.Slow = -1, "", false, false, true, false
 		for k := range set {
 			delete(set, k)
+		}
+	case "cancel":
+		// the caller's context ends: before the call, right after the source reference was resolved (before
+		// the root task starts), or after the k-th event for every k up to the length of a run
+		c.MapRoot, c.Platform, c.Mount = -1, "", false
+		switch r.Intn(8) {
+		case 0, 1:
+			c.CancelAt, c.CancelDeadline = -1, r.Bool()
+		case 2, 3:
+			c.CancelAt = -2
+			if c.Mode == "g" {
+				c.CancelAt = -1
+			}
+		default:
+			c.CancelAt = 1 + r.Intn(8*len(g.Nodes)+4)
 		}
 	case "platimage":
 		// WithTargetPlatform on an image-manifest root: SelectManifest reads the manifest and its config
@@ -408,9 +468,20 @@ func Generate(genseed uint64, stream string, thorough bool) *Case {
 			c.Mount = true
 			c.MapRoot, c.Platform = -1, ""
 		}
+	case "schedenum":
+		// schedule enumeration: tiny graph, memory stores, few scheduling points
+		c.Sched, c.Enum = true, true
+		c.K = common.Pick(r, []int{1, 2, 2, 3})
+		c.Src, c.Dst = "mem", "mem"
+		c.MapRoot, c.Platform, c.Mount, c.RefFetch = -1, "", false, false
+		c.CbSet = common.Pick(r, []string{"00000", "00000", "01100"})
+		c.Root = bigRoot()
 	case "sched":
 		// controlled schedules (testing/synctest): contention matters, so small K
 		c.Sched = true
+		if r.Chance(1, 4) {
+			c.CancelAt = 1 + r.Intn(6*len(g.Nodes)+4) // cancellation at a scheduler-chosen point
+		}
 		c.K = common.Pick(r, []int{1, 2, 2, 3, 3, 0})
 		c.Src = common.Pick(r, []string{"mem", "mem", "oci"})
 		c.Dst = common.Pick(r, []string{"mem", "mem", "oci"})
@@ -645,6 +716,52 @@ func addClaimFan(r *common.Rand, g *dag.Graph) int {
 	rt := &dag.Node{ID: len(g.Nodes), Kind: dag.KIndex, Subject: -1, TwinOf: -1, Succ: members, Bytes: bs, Desc: desc(ix.MediaType, bs)}
 	g.Nodes = append(g.Nodes, rt)
 	return rt.ID
+}
+
+// addLayerZoo appends an image manifest whose layer list mixes every layer media type the code
+// distinguishes: two or three non-distributable (foreign) layers of different types with distributable
+// layers (tar, tar+gzip, tar+zstd, docker) between and after them, in a PRNG order that always has a
+// distributable layer after the second foreign one.  Returns the manifest.
+func addLayerZoo(r *common.Rand, g *dag.Graph) int {
+	desc := func(mt string, bs []byte) ocispec.Descriptor {
+		return ocispec.Descriptor{MediaType: mt, Digest: digest.FromBytes(bs), Size: int64(len(bs))}
+	}
+	add := func(kind, mt, tag string) *dag.Node {
+		bs := []byte(fmt.Sprintf("zoo-%s-%d-%x", tag, len(g.Nodes), r.U64()))
+		n := &dag.Node{ID: len(g.Nodes), Kind: kind, Bytes: bs, Desc: desc(mt, bs), Subject: -1, TwinOf: -1}
+		g.Nodes = append(g.Nodes, n)
+		return n
+	}
+	cfg := add(dag.KConfig, ocispec.MediaTypeImageConfig, "cfg")
+	foreignTypes := []string{ocispec.MediaTypeImageLayerNonDistributable, ocispec.MediaTypeImageLayerNonDistributableGzip,
+		ocispec.MediaTypeImageLayerNonDistributableZstd, dag.MTDockerForeignLayer}
+	plainTypes := []string{ocispec.MediaTypeImageLayer, ocispec.MediaTypeImageLayerGzip, ocispec.MediaTypeImageLayerZstd, dag.MTDockerLayer}
+	common.Shuffle(r, foreignTypes)
+	common.Shuffle(r, plainTypes)
+	var layers []*dag.Node
+	f1, f2 := add(dag.KForeign, foreignTypes[0], "f1"), add(dag.KForeign, foreignTypes[1], "f2")
+	a, b := add(dag.KBlob, plainTypes[0], "a"), add(dag.KBlob, plainTypes[1], "b")
+	layers = []*dag.Node{f1, a, f2, b}
+	if r.Bool() {
+		layers = []*dag.Node{a, f1, f2, b}
+	}
+	if r.Bool() {
+		layers = append(layers, add(dag.KForeign, foreignTypes[2], "f3"), add(dag.KBlob, plainTypes[2], "c"))
+	}
+	if r.Bool() {
+		layers = append(layers, add(dag.KBlob, plainTypes[3], "d"))
+	}
+	m := ocispec.Manifest{MediaType: ocispec.MediaTypeImageManifest, Config: cfg.Desc}
+	m.SchemaVersion = 2
+	im := &dag.Node{ID: len(g.Nodes), Kind: dag.KImage, Subject: -1, TwinOf: -1, Succ: []int{cfg.ID}}
+	for _, l := range layers {
+		m.Layers = append(m.Layers, l.Desc)
+		im.Succ = append(im.Succ, l.ID)
+	}
+	bs, _ := json.Marshal(m)
+	im.Bytes, im.Desc = bs, desc(m.MediaType, bs)
+	g.Nodes = append(g.Nodes, im)
+	return im.ID
 }
 
 // addWideFan appends 8..14 image manifests, each over its own fresh layer blob and a shared config, and an
